@@ -40,6 +40,9 @@ func main() {
 	case "selftest":
 		os.Exit(cmdSelftest(os.Args[2:]))
 	default:
+		if f, ok := extraCommands[os.Args[1]]; ok {
+			os.Exit(f(os.Args[2:]))
+		}
 		usage()
 	}
 }
@@ -178,7 +181,7 @@ func cmdCheck(args []string) int {
 		res := cachedRun(es.Name, run, w, *tier)
 		n := 0
 		for _, o := range res.Obligations {
-			if es.Filter != nil && !es.Filter(o) {
+			if es.Filter != nil && !es.Filter(w, o) {
 				continue
 			}
 			all = append(all, o)
@@ -191,6 +194,9 @@ func cmdCheck(args []string) int {
 			if res.Stats[k] < min {
 				floorFailures = append(floorFailures, fmt.Sprintf("%s: %s=%d below the floor %d confirmed by hand", es.Name, k, res.Stats[k], min))
 			}
+		}
+		if n == 0 {
+			all = append(all, Obligation{Rule: "FLOOR", Func: "-", Construct: "engine " + es.Name + " produced no obligation for this property", Verdict: Undecided, Detail: "the rule instances this property relies on were not found: unresolved anchors or a filter that matches nothing"})
 		}
 		engineInfo = append(engineInfo, map[string]any{"engine": es.Name, "rule": res.Rule, "analysed": res.Stats, "floors": res.Floors, "obligations_for_this_property": n, "notes": res.Notes})
 	}
